@@ -1351,6 +1351,45 @@ class Flattener(object):
             return stmts[:i + 1]
         return stmts
 
+    def _drop_dead_copies(self, node):
+        """`x = <name or constant>` whose target is read on no path afterwards does nothing: removed (the branch that hands back a
+        sentinel leaves such a binding behind once the test on it has been resolved)"""
+        from . import cfg as cfgmod
+        from .dataflow import _live_names
+        nested = [n for n in ast.walk(node) if isinstance(n, (ast.FunctionDef, ast.Lambda, ast.ClassDef, ast.GeneratorExp, ast.ListComp,
+                                                              ast.SetComp, ast.DictComp)) and n is not node]
+        captured = {x.id for n in nested for x in ast.walk(n) if isinstance(x, ast.Name)}
+        if any(isinstance(n, (ast.Global, ast.Nonlocal)) for n in ast.walk(node)):
+            return
+        for _ in range(4):
+            probe = FuncInfo(self.fi.module, node, self.fi.cls)
+            g = cfgmod.build(probe)
+            live = _live_names(g)
+            if live is None:
+                return
+            dead = set()
+            for n in g.nodes:
+                a = n.ast
+                if n.kind == 'stmt' and isinstance(a, ast.Assign) and len(a.targets) == 1 and isinstance(a.targets[0], ast.Name) and \
+                        isinstance(a.value, (ast.Name, ast.Constant)) and a.targets[0].id not in captured:
+                    out_live = set()
+                    for s_, lab in g.succ[n.id]:
+                        out_live |= live.get(s_, set())
+                    if a.targets[0].id not in out_live:
+                        dead.add(id(a))
+            if not dead:
+                return
+
+            class D(ast.NodeTransformer):
+                def visit_FunctionDef(self_, n):
+                    return self_.generic_visit(n) if n is node else n
+
+                def visit_Assign(self_, n):
+                    return None if id(n) in dead else n
+            D().visit(node)
+            _fill_empty([node])
+            ast.fix_missing_locations(node)
+
     def _coalesce_batons(self, node):
         """Values handed from one inlined helper to the next leave chains of plain copies behind
         (`values = initial; initial__i2 = values; ...; values = initial__i2`).  Two local names related by such a copy are merged
@@ -1612,6 +1651,61 @@ class Flattener(object):
             self.desugared += 1
             return True
         return False
+
+    def _fold_sentinel_tests(self, node):
+        """`x is _KEEP` where _KEEP is a private module-level sentinel (`_KEEP = object()`, bound once, only ever compared with
+        `is` or handed back as a result - never passed as an argument or stored) and x is something else than that name: the
+        sentinel can only come out of the package's own code that returns it, and after inlining that code is in view as the other
+        branch of the choice - a parameter or a looked-up value is not the sentinel.  (Assumption stated in DESIGN.md: callers do not
+        pass a private sentinel of the package in.)"""
+        cache = self.prog.__dict__.setdefault('_sentinels', None)
+        if cache is None:
+            cache = set()
+            for rel, m in self.prog.modules.items():
+                for st in m.tree.body:
+                    if isinstance(st, ast.Assign) and len(st.targets) == 1 and isinstance(st.targets[0], ast.Name) and \
+                            st.targets[0].id.startswith('_') and isinstance(st.value, ast.Call) and isinstance(st.value.func, ast.Name) and \
+                            st.value.func.id == 'object' and not st.value.args:
+                        nm = st.targets[0].id
+                        ok = True
+                        for n in ast.walk(m.tree):
+                            if isinstance(n, ast.Name) and n.id == nm and n is not st.targets[0]:
+                                if isinstance(n.ctx, ast.Store):
+                                    ok = False
+                                p = getattr(n, '_parent', None)
+                                if isinstance(p, ast.Call) and n in p.args or isinstance(p, ast.keyword):
+                                    ok = False
+                                if isinstance(p, (ast.List, ast.Tuple, ast.Dict, ast.Set, ast.Subscript, ast.Attribute)):
+                                    ok = False
+                        if ok:
+                            cache.add(nm)
+            self.prog._sentinels = cache
+        if not cache:
+            return
+
+        params = {a.arg for a in node.args.posonlyargs + node.args.args + node.args.kwonlyargs}
+        rebound = _stored_names(node)
+
+        def not_the_sentinel(b_):
+            # a parameter that is never re-bound, a constant, an item looked up in a caller's mapping
+            if isinstance(b_, ast.Constant):
+                return True
+            if isinstance(b_, ast.Name):
+                return b_.id in params and b_.id not in rebound
+            if isinstance(b_, ast.Subscript):
+                return isinstance(b_.value, ast.Name) and b_.value.id in params and b_.value.id not in rebound
+            return False
+
+        class F(ast.NodeTransformer):
+            def visit_Compare(self_, n):
+                self_.generic_visit(n)
+                if len(n.ops) == 1 and isinstance(n.ops[0], (ast.Is, ast.IsNot)):
+                    l_, r_ = n.left, n.comparators[0]
+                    for a_, b_ in ((l_, r_), (r_, l_)):
+                        if isinstance(a_, ast.Name) and a_.id in cache and not_the_sentinel(b_):
+                            return ast.copy_location(ast.Constant(value=isinstance(n.ops[0], ast.IsNot)), n)
+                return n
+        F().visit(node)
 
     def _fold_sequence_markers(self, node):
         """`__sequence__(x)` (left by the normal form of `match x: case [..]`) is True when every binding of the local x is a
@@ -2561,6 +2655,7 @@ class Flattener(object):
                 if not (self._scalarise_tuples(node) or self._scalarise_dicts(node)):
                     break
             self._fold_sequence_markers(node)
+            self._fold_sentinel_tests(node)
             if ast.dump(node) == shape:
                 break
         if self.desugared != before and (self.fi.key + '::<desugared>') not in self.inlined:
@@ -2569,6 +2664,7 @@ class Flattener(object):
         if self.inlined:
             try:
                 self._coalesce_batons(node)
+                self._drop_dead_copies(node)
             except RecursionError:
                 raise
             except Exception:
@@ -2583,6 +2679,10 @@ class Flattener(object):
 def _const_truth(t):
     if isinstance(t, ast.Constant) and (isinstance(t.value, bool) or t.value is None):
         return bool(t.value)
+    # x is x / x is not x for one and the same name
+    if isinstance(t, ast.Compare) and len(t.ops) == 1 and isinstance(t.ops[0], (ast.Is, ast.IsNot)) and isinstance(t.left, ast.Name) and \
+            isinstance(t.comparators[0], ast.Name) and t.left.id == t.comparators[0].id:
+        return isinstance(t.ops[0], ast.Is)
     # nothing is a member of an empty display: `x in ()` is False whatever the name x holds
     if isinstance(t, ast.Compare) and len(t.ops) == 1 and isinstance(t.ops[0], (ast.In, ast.NotIn)) and \
             isinstance(t.left, (ast.Name, ast.Constant)) and isinstance(t.comparators[0], (ast.Tuple, ast.List, ast.Set)) and \
